@@ -39,6 +39,8 @@ def parse_stream(out):
 def modes(work):
     """(name, argv builder) — both read the tree given as a single root path"""
     return [('run', lambda: ['run', '-p', 'foo($$$A)', '-l', 'js', '--json=stream']),
+            # language inferred per file: the pattern is compiled per language, html hosts get their <script> searched
+            ('run-infer', lambda: ['run', '-p', 'foo($$$A)', '--json=stream']),
             ('scan', lambda: ['scan', '-c', os.path.join(work, 'sgconfig.yml'), '--json=stream'])]
 
 
@@ -251,7 +253,7 @@ def run_tree(rep, ctx, work, k, rng):
                 for root, dirs, fs in os.walk(dd):
                     os.chmod(root, 0o755)
             want = sorted(x for p, v in expected.items() if v and p not in plan for x in v)
-            eligible = [p for p in files if p not in plan and (mname == 'scan' or p.endswith('.js')) and not p.endswith('.txt')]
+            eligible = [p for p in files if p not in plan and (mname != 'run' or p.endswith('.js')) and not p.endswith('.txt')]
             for t in threads:
                 for r in range(reps):
                     log = os.path.join(work, f'log-{k}-{mname}-{fname}-{t}-{r}.jsonl')
